@@ -53,7 +53,8 @@ fn dump(script: &Value, v: &Value) {
 }
 
 fn sbom_format(s: &str) -> SbomFormat {
-    match s {
+    // "cdx#2": a second, different document of the same format (the whole spelling goes into the document's content)
+    match s.split('#').next().unwrap_or(s) {
         "cdx" => SbomFormat::CycloneDxJson,
         "spdx" => SbomFormat::SpdxJson,
         _ => SbomFormat::SyftJson,
